@@ -27,7 +27,8 @@ PROP = 'C05'
 
 DIRS = ['', 'a', 'b', 'aa', 'bb', 'ab', 'io', 'src', 'a.b', 'lib/aa',
         'aa/bb', 'x', 'deep/er/dir', 't1', 'abc']
-STEMS = ['x', 'y', 'io', 'ui', 't1', 'main', 'a.b', 'xx', 'util', 'ab']
+STEMS = ['x', 'y', 'io', 'ui', 't1', 'main', 'a.b', 'xx', 'util', 'ab',
+         'x.y', 'x.z', 'io.v1', 'io.v2', 'a.b.c', 'util.pb', 'main.gen']
 EXTS = ['.c', '.c', '.c', '.cpp', '.cc']
 
 
